@@ -43,8 +43,14 @@ func (c Channel) TokenReader() xml.TokenReader {
 		))
 	}
 	if len(c.Extensions) > 0 {
+		// The decoder reports the namespace of an element both in its name and as
+		// an xmlns attribute, and the encoder writes one for the name again: drop
+		// the attribute so that it does not end up in the output twice.
+		extensions := xmlstream.RemoveAttr(func(start xml.StartElement, attr xml.Attr) bool {
+			return start.Name.Space != "" && attr.Name.Space == "" && attr.Name.Local == "xmlns"
+		})(xml.NewDecoder(bytes.NewReader(c.Extensions)))
 		payloads = append(payloads, xmlstream.Wrap(
-			xml.NewDecoder(bytes.NewReader(c.Extensions)),
+			extensions,
 			xml.StartElement{
 				Name: xml.Name{Local: "extensions"},
 			},
